@@ -62,21 +62,39 @@ def check_vectorize(ctx):
         arity = rng.randint(0, 4)
         mask = sorted(rng.sample(range(arity), rng.randint(0, arity))) if arity and rng.random() < .6 else None
         dtype = rng.choice([None, None, float, object, False])
+        # the FORM of the operation's output: the same kind for every row, or a kind that depends on the row (the first row
+        # the narrowest: an int before floats, a short string before longer ones), or a vector per row
+        outkind = ['mixed_num', 'mixed_str', 'vec'][it] if it < 3 else rng.choice(['float'] * 4 + ['mixed_num', 'mixed_str', 'vec'])
+        if outkind == 'mixed_str' and dtype is float:
+            dtype = None
+        if it < 3:
+            dtype = None
+        ctx.count('vec.output_kind', outkind)
         log = []
+
+        def outfn(k, s):
+            if outkind == 'mixed_num':
+                return int(round(s)) if k == 0 else s + 0.5
+            if outkind == 'mixed_str':
+                return 'lo' if k == 0 else 'higher%d' % k
+            if outkind == 'vec':
+                return np.array([s, 2 * s + 0.25])
+            return s
 
         def op(*args, **kw):
             log.append((args, {k: (dict(v) if k == 'meta' else v) for k, v in kw.items()}))
             s = 0.0
             for a in args:
                 s += float(np.sum(a))
-            return s if dtype is not False else dict(value=s)
+            o = outfn(len(log) - 1, s)
+            return o if dtype is not False else dict(value=o)
 
         f = elfi.tools.vectorize(op, mask, dtype=dtype) if mask is not None or dtype is not None else elfi.tools.vectorize(op)
         ncalls = rng.choice([1, 2, 2, 3])
         mask0 = None if mask is None else list(mask)
         hist = []
         for c in range(ncalls):
-            n = rng.randint(1, 4)
+            n = rng.randint(1, 4) if outkind == 'float' else rng.randint(2, 4)
             kinds = [rng.choice(KINDS if rng.random() < .25 else KINDS[:-1]) for _ in range(arity)]
             if c >= 1 and hist and rng.random() < .5:
                 # the same callable again, now with batch arrays wherever the previous call had a scalar (and vice versa)
@@ -162,14 +180,17 @@ def check_vectorize(ctx):
                                exp_calls[:3], [cl['args'] for cl in calls[:3]])
                 continue
             # result = per-row outputs
-            exp_out = [sum(float(np.sum(a)) for a in log[i][0]) for i in range(exp_n)]
+            exp_out = [outfn(i, sum(float(np.sum(a)) for a in log[i][0])) for i in range(exp_n)]
+            same_el = lambda a, b: bool(np.array_equal(np.asarray(a), np.asarray(b)))
             if dtype is False:
-                good = isinstance(out, np.ndarray) and out.dtype == object and [o['value'] for o in out] == exp_out
+                good = isinstance(out, np.ndarray) and out.dtype == object and len(out) == exp_n and \
+                    all(same_el(o['value'], e) for o, e in zip(out, exp_out))
             else:
-                good = isinstance(out, np.ndarray) and np.array_equal(np.asarray(out, dtype=float), np.array(exp_out)) and \
+                # entry i of the result IS the operation's output for row i (whatever array type numpy picks for the whole)
+                good = isinstance(out, np.ndarray) and len(out) == exp_n and all(same_el(out[i], exp_out[i]) for i in range(exp_n)) and \
                     (dtype is None or out.dtype == np.dtype(dtype))
             if not good:
-                ctx.fail_input(case, 'call %d: returned array is not the array of per-row outputs' % c, exp_out, np.asarray(out).tolist())
+                ctx.fail_input(case, 'call %d: returned array is not the array of per-row outputs' % c, [np.asarray(e).tolist() for e in exp_out], np.asarray(out).tolist())
             reqs.append(dict(op='C18.vec', consts=mask0 or [], inputs=mj, bs=kwargs.get('batch_size')))
             meta.append((case, None, [[('row' if not (k in consts or not (isinstance(o, np.ndarray) and o.ndim > 0)) else 'whole')
                                        for k, o in enumerate(objs)] for _ in range(exp_n)]))
